@@ -31,6 +31,8 @@ func unsupported(what string) unsupportedErr { return unsupportedErr{what} }
 
 func (e unsupportedErr) Error() string { return "unsupported: " + e.what }
 
+var forkProfile map[string]int
+
 type knownCond struct {
 	key  string
 	cond *Term
@@ -153,6 +155,9 @@ func (in *Interp) branch(c *Term) bool {
 	switch {
 	case tf && ff:
 		in.cs.Forks++
+		if forkProfile != nil {
+			forkProfile[in.where()]++
+		}
 		alt := append(append([]Decision(nil), in.trace...), Decision{val: 0})
 		in.pending = append(in.pending, pendingPath{prefix: alt, model: fm})
 		in.trace = append(in.trace, Decision{val: 1})
@@ -290,6 +295,16 @@ func (in *Interp) replaying() bool { return in.dpos < len(in.prefix) }
 
 // fresh creates a new nondeterministic input variable.
 func (in *Interp) fresh(w int) *Term {
+	if in.pinned != nil {
+		i := len(in.inputs)
+		var v uint64
+		if i < len(in.pinned) {
+			v = in.pinned[i]
+		}
+		c := in.tb.Const(w, v)
+		in.inputs = append(in.inputs, c)
+		return c
+	}
 	name := fmt.Sprintf("in%d_%d", len(in.inputs), w)
 	v := in.tb.Var(w, name)
 	in.inputs = append(in.inputs, v)
